@@ -367,6 +367,11 @@ def run(chk):
     r16_origin(chk, prog)
 
     diag.compare(chk, "R16-resolve", "resolve", resolve_table(prog), "include path resolution (make_include_filename): separator normalisation, absolute paths, the directory of the including file tried first, fallback to the name as written; compared with the reviewed table", floor=5)
+    # include files (A2L and A2ML) are read through loader::load: what it does with the bytes of a file (decoding, removal of a
+    # byte order mark) applies to every included file exactly as to the main file
+    from . import c17
+    diag.compare(chk, "R16-load", "loader", c17.loader_table(prog), "loader::load (used for the main file and for every /include): its steps with their control predicates, compared with the reviewed table", floor=4,
+                 fn_filter=lambda fn: fn == "loader::load")
     # ------------------------------------------------------------------ R16-err
     diag.compare(chk, "R16-err", "tokenizer", tokenizer_table(prog), "include handling in tokenize()/tokenize_include(): error constructions and nested calls with their control predicates, compared with the reviewed table", floor=8)
     chk.assumptions += ["not decided: model equality with the flattened text; path resolution on disk"]
